@@ -20,6 +20,9 @@ type c15case struct {
 	LB    string
 	Alias int // 0 fresh receiver, 1 q==p1, 2 q==p2, 3 p1==p2 (same pointer; only when A==B and LA==LB), 4 all the same pointer
 	Cond  int
+	// Recv: the earlier life of a non-aliased receiver: 0 fresh; 1 decoded from an encoding (and already converted back
+	// once); 2 the generator; 3 the result of an addition; 4 the point at infinity obtained by P + (-P)
+	Recv int
 }
 
 func c15pts() (names []string, pts map[string]sm2ref.Point) {
@@ -150,6 +153,22 @@ func c15eval(r *vx.R, c c15case, pts map[string]sm2ref.Point) {
 	p1 := vxRep(ra, la)
 	p2 := vxRep(rb, lb)
 	q := NewSM2Point()
+	switch c.Recv {
+	case 1:
+		enc5 := append(append([]byte{4}, sm2ref.Bytes32(sm2ref.BaseMul(big.NewInt(5)).X)...), sm2ref.Bytes32(sm2ref.BaseMul(big.NewInt(5)).Y)...)
+		q.SetBytes(enc5)
+		q.Bytes()
+		q.GetAffineX()
+	case 2:
+		q = NewSM2Generator()
+		q.Bytes_Unsafe()
+	case 3:
+		q.Add(NewSM2Generator(), vxRep(sm2ref.BaseMul(big.NewInt(9)), big.NewInt(3)))
+		q.Bytes()
+	case 4:
+		q.Add(NewSM2Generator(), NewSM2Point().Negate(NewSM2Generator()))
+		q.GetAffineX_Unsafe()
+	}
 	var want sm2ref.Point
 	keep1x, keep1y, keep1z := vxCoords(p1)
 	keep2x, keep2y, keep2z := vxCoords(p2)
@@ -219,6 +238,20 @@ func c15eval(r *vx.R, c c15case, pts map[string]sm2ref.Point) {
 	} else if got := vxToRef(q); !got.Equal(want) {
 		r.Violation(fmt.Sprintf("%s:wrong:alias%d", key, c.Alias), fmt.Sprintf("%s(%s,%s) alias=%d: wrong group element", c.Op, c.A, c.B, c.Alias), c)
 	}
+	// every conversion of the result agrees with the group element, whatever the receiver held (and had converted) before
+	{
+		var wenc []byte
+		wx := new(big.Int)
+		if want.Inf {
+			wenc = []byte{0}
+		} else {
+			wenc = append(append([]byte{4}, sm2ref.Bytes32(want.X)...), sm2ref.Bytes32(want.Y)...)
+			wx = want.X
+		}
+		if b1, b2 := q.Bytes(), q.Bytes_Unsafe(); !bytes.Equal(b1, wenc) || !bytes.Equal(b2, wenc) || q.GetAffineX().Cmp(wx) != 0 || q.GetAffineX_Unsafe().Cmp(wx) != 0 || (q.IsInfinity() == 1) != want.Inf {
+			r.Violation(fmt.Sprintf("%s:conversion-of-result:recv%d", key, c.Recv), fmt.Sprintf("%s(%s,%s) into a receiver with earlier life %d: the coordinates are right but Bytes=%x Bytes_Unsafe=%x GetAffineX=%x, expected %x", c.Op, c.A, c.B, c.Recv, b1, b2, q.GetAffineX(), wenc), c)
+		}
+	}
 	// operands that are not the receiver must be untouched
 	if q != p1 {
 		x, y, z := vxCoords(p1)
@@ -251,7 +284,7 @@ func c15eval(r *vx.R, c c15case, pts map[string]sm2ref.Point) {
 }
 
 func TestVX_C15_Arith(t *testing.T) {
-	r := vx.Begin("C15", "point-arith", "points A={O,+-G,+-2G,+-3G,S0,-S0,S1,S2} in projective representatives (lx:ly:l), l in {1,2,p-1,seeded} (O as (0:l:0)); Add over A x A x l^2 x aliasing {fresh, q=p1, q=p2, p1=p2, all same}; Double/Negate (fresh, aliased), Select(cond 0/1, aliased), Set; oracle = affine group law in sm2ref; every result must satisfy Y^2Z=X^3-3XZ^2+bZ^3; operands not written unless aliased; conversions Bytes/Bytes_Unsafe/GetAffineX/GetAffineX_Unsafe agree on every representative")
+	r := vx.Begin("C15", "point-arith", "points A={O,+-G,+-2G,+-3G,S0,-S0,S1,S2} in projective representatives (lx:ly:l), l in {1,2,p-1,seeded} (O as (0:l:0)); Add over A x A x l^2 x aliasing {fresh, q=p1, q=p2, p1=p2, all same}; Double/Negate (fresh, aliased), Select(cond 0/1, aliased), Set; receivers with an earlier life (decoded and converted, generator, result of an addition, infinity) for every operation, with all conversions of the result checked; oracle = affine group law in sm2ref; every result must satisfy Y^2Z=X^3-3XZ^2+bZ^3; operands not written unless aliased; conversions Bytes/Bytes_Unsafe/GetAffineX/GetAffineX_Unsafe agree on every representative")
 	defer r.End()
 	names, pts := c15pts()
 	if raw, ok := vx.Replay("point-arith"); ok {
@@ -269,6 +302,20 @@ func TestVX_C15_Arith(t *testing.T) {
 		}
 		c15eval(r, c, pts)
 		r.Sample(c)
+	}
+	// receivers with an earlier life, every operation
+	for _, recv := range []int{1, 2, 3, 4} {
+		for _, a := range []string{"O", "G", "-2G", "S1"} {
+			for _, la := range []string{ls[1], ls[3]} {
+				run(c15case{Op: "add", A: a, B: "3G", LA: la, LB: ls[1], Recv: recv})
+				run(c15case{Op: "double", A: a, B: a, LA: la, LB: la, Recv: recv})
+				run(c15case{Op: "negate", A: a, B: a, LA: la, LB: la, Recv: recv})
+				run(c15case{Op: "set", A: a, B: a, LA: la, LB: la, Recv: recv})
+				for cond := 0; cond <= 1; cond++ {
+					run(c15case{Op: "select", A: a, B: "S2", LA: la, LB: ls[3], Cond: cond, Recv: recv})
+				}
+			}
+		}
 	}
 	sls := c15structLambdas()
 	for ai, a := range names {
